@@ -58,11 +58,12 @@ def run(ctx):
         x = ret.args[1 + fidx(ctx, SS, "x")]
         y = ret.args[1 + fidx(ctx, SS, "y")]
         ctx.add("C06.R2", root + "#share-x-is-the-point", Q.path_of(x) == "x", "the share's x must be the evaluation point; found %s" % S(x, 3), at)
-        folds = Q.find_all(y, lambda t: t.op == "fold")
+        folds = Q.find_all(y, lambda t: t.op == "fold" or Q.is_loop_acc(t))
         okh = False
         det = S(y, 5)
-        if len(folds) == 1:
-            init, body, it, acc = folds[0].args
+        fv = Q.fold_view(folds[0], eng) if len(folds) == 1 else None
+        if fv is not None and fv[2] is not None:
+            init, body, it, acc = fv
             zero = Q.contains(init, lambda t: t.op == "constdef" and "ZERO" in str(t.args[0])) or (init.op == "agg" and Q.leaves(init) == set())
             shape = body.op == "alg_add" and any(
                 a.op == "alg_mul" and any(z is acc for z in a.args) and any(Q.path_of(z) == "x" for z in a.args) and
@@ -106,14 +107,23 @@ def run(ctx):
     root = "star_sharks::Sharks::dealer_rng"
     eng, ret, st, fr = ctx.root(root)
     at = ctx.fn(root).loc
+    # the decoded element is used (unwrapped, or converted into an Option and taken) only where its validity is established
     un = [e for e in Q.calls(eng, None) if e.get("model") == "m_ct_unwrap" and e["frame"] == fr.key]
-    okun = bool(un)
+    okun = True
     for e in un:
         fs = Q.closure(eng, eng.facts_at(e["frame"], e["block"]))
         if not any(t.op == "ct_valid" and rel == "eq" and v == 1 and t.args[0] is e["args"][0] for t, rel, v in fs):
             okun = False
-    ctx.add("C06.R4", root + "#unwrap-after-validity", okun,
-            "the decoded secret element may be unwrapped only on the `is valid` edge", un[0]["at"] if un else at)
+    rp_ = Q.calls(eng, "star_sharks::share_ff::random_polynomial", in_fn=root)
+    okuse = bool(rp_)
+    for e in rp_:
+        el_ = e["argv"][0]
+        fs = Q.closure(eng, eng.facts_at(e["frame"], e["block"]))
+        if not (el_.op == "ct_value" and any(t.op == "ct_valid" and rel == "eq" and v == 1 and t.args[0] is el_.args[0] for t, rel, v in fs)):
+            okuse = False
+    ctx.add("C06.R4", root + "#unwrap-after-validity", okun and okuse,
+            "the decoded secret element may be taken out of its CtOption only where `is valid` is established (unwraps checked: %d, "
+            "uses as constant term checked: %d)" % (len(un), len(rp_)), un[0]["at"] if un else at)
     err = Q.variant(ret, 1)
     okerr = False
     for (fk, b) in (err[4] if err else ()):
@@ -160,8 +170,13 @@ def run(ctx):
                 src = src.args[0]
             if src is not None and src.op == "mapped":
                 body = src.args[1]
+    if body is None and okv is not None and okv[2]:
+        # a byte vector filled by a loop appending one element encoding per iteration
+        pr = Q.parts_of(okv[2][0])
+        if len(pr) == 1 and pr[0][0] == "repeat" and len(pr[0][1]) == 1 and pr[0][1][0][0] == "part":
+            body = pr[0][1][0][1]
     el6 = complete_repr(body) if body is not None else None
-    ctx.add("C06.R6", "star_sharks::share_ff::interpolate#output-is-complete-repr-of-each-element", el6 is not None and el6.op == "fold",
+    ctx.add("C06.R6", "star_sharks::share_ff::interpolate#output-is-complete-repr-of-each-element", el6 is not None and el6.op in ("fold", "phi"),
             "the secret bytes returned must be, element by element, the complete 24-byte canonical encoding of the interpolated "
             "value (a truncated or padded partial copy alters elements >= 2^128); per-element bytes: %s" % S(body, 4),
             ctx.fn("star_sharks::share_ff::interpolate").loc, sample=S(body, 3))
